@@ -498,6 +498,14 @@ func runSocket(e *Env, hostile bool) {
 					}
 				}
 			}
+			if !hostile && c.Kind != "tcp" && e.Choose("wl.junk", 12) == 0 {
+				// something that is no frame at all between two well-formed ones (an empty datagram, a
+				// stray byte or two): the next frame must be surfaced all the same
+				junk := genFrame{raw: gen.bytes("wl.junkb", e.Choose("wl.junklen", 4)), desc: "junk"}
+				r.sent = append(r.sent, junk)
+				r.transmit(c.Kind, udpPeer, clientAddr, groupAddr, &stream, junk.raw)
+				e.Fault("junk-datagram")
+			}
 			r.sent = append(r.sent, f)
 			r.transmit(c.Kind, udpPeer, clientAddr, groupAddr, &stream, f.raw)
 			if c.Gap > 0 && e.Choose("wl.gap", 2) == 0 {
